@@ -2,7 +2,18 @@
 """Print the sub-agent prompt for one property (property text only, nothing from /verif's machinery)."""
 import json, sys
 pid = sys.argv[1].upper()
-wt = f"/tmp/wt-{pid.lower()}"
+rnd = sys.argv[2] if len(sys.argv) > 2 else ""
+wt = f"/tmp/wt-{pid.lower()}{rnd}"
+prior = ""
+if rnd:
+    import os
+    f = "/verif/notes/round1_descriptions.json"
+    if os.path.exists(f):
+        items = json.load(open(f)).get(pid, [])
+        if items:
+            prior = ("\n\nANOTHER TEAM HAS ALREADY HANDED IN the following seeded changes for this property. Yours must be clearly "
+                     "DIFFERENT: other functions and preferably other files, other mechanisms, other clauses of the statement. "
+                     "Do not re-do any of these:\n" + "\n".join(items) + "\n")
 for l in open('/verif/properties.jsonl'):
     p = json.loads(l)
     if p['id'] == pid:
@@ -16,6 +27,7 @@ STATEMENT: {p['statement']}
 QUANTIFIED OVER: {p['quantifier']['text']}
 WHY THE TEST SUITE CANNOT SETTLE IT: {p['why_tests_cant']}
 
+{prior}
 YOUR TASK: produce THREE different changes (try hard for three; two is acceptable) to the library source (files under {wt}/src/graphql only, tests untouched) such that each change
   (a) BREAKS the property above (a real behavioural violation of the statement),
   (b) still compiles/imports, and the ENTIRE existing test suite still passes with the change applied,
